@@ -7,7 +7,7 @@ the harness (Go) and once more by Coq on the observed documents.
 Command level: the real binary on small workspaces x fail levels x formats; exit status compared
 with Model/Exit.v, stdout parsed by the same parsers and compared with the model documents of the
 report the same workspace publishes as JSON."""
-import binascii, concurrent.futures, json, os, re, shutil, subprocess
+import binascii, concurrent.futures, json, os, re, shutil, subprocess, time
 import vlib
 from vlib import clist, cbool
 from common import proof_gate, proof_coverage
@@ -18,8 +18,55 @@ CODE_FMT = {i: f for i, f in enumerate(FORMATS)}
 
 # ------------------------------------------------------------------ JSON (harness) -> Coq terms
 
+class Emitter:
+    """distinct byte strings become named definitions [sK := packed [...]]; long free-text fields of
+    OBSERVED documents are replaced by their 9-byte digest (Base/StrLit.v digest_str)"""
+    LONG = 40
+
+    def __init__(self):
+        self.names = {}
+        self.defs = []
+
+    def name(self, b):
+        n = self.names.get(b)
+        if n is None:
+            n = 's%d' % len(self.names)
+            self.names[b] = n
+            words = [len(b)] + [int.from_bytes(b[k:k + 7].ljust(7, b'\0'), 'big') for k in range(0, len(b), 7)]
+            self.defs.append('Definition %s := packed [%s]%%uint63.' % (n, ';'.join(map(str, words))))
+        return n
+
+    @staticmethod
+    def digest(b):
+        h = 1469598103934665603
+        for x in b:
+            h = (h * 1099511628211 + x + 1) & ((1 << 63) - 1)
+        return b'\0' + h.to_bytes(8, 'big')
+
+
+E = Emitter()
+
+
 def S(h):
-    return '(unhex "%s")' % h
+    """a string written in full"""
+    return E.name(binascii.unhexlify(h))
+
+
+def T(h):
+    """observed free text: digest when long"""
+    b = binascii.unhexlify(h)
+    return E.name(Emitter.digest(b) if len(b) > Emitter.LONG else b)
+
+
+def C(h):
+    """observed table cell holding free text: trailing padding cannot be told from trailing spaces"""
+    b = binascii.unhexlify(h).rstrip(b' ')
+    return E.name(Emitter.digest(b) if len(b) > Emitter.LONG else b)
+
+
+def KC(h):
+    """observed table cell holding a key field: in full, padding stripped"""
+    return E.name(binascii.unhexlify(h).rstrip(b' '))
 
 
 def N(n):
@@ -34,7 +81,8 @@ def lst(xs, f):
     return '[' + '; '.join(f(x) for x in xs) + ']'
 
 
-def jval(j):
+def jval(j, sfun=None):
+    sfun = sfun or S
     t = j['t']
     if t == 'null':
         return 'JNull'
@@ -43,12 +91,49 @@ def jval(j):
     if t == 'num':
         return '(JNum %d)' % j.get('n', 0)
     if t == 'str':
-        return '(JStr %s)' % S(j.get('s', ''))
+        return '(JStr %s)' % sfun(j.get('s', ''))
     if t == 'arr':
-        return '(JArr %s)' % lst(j.get('l') or [], jval)
+        return '(JArr %s)' % lst(j.get('l') or [], lambda x: jval(x, sfun))
     if t == 'obj':
-        return '(JObj %s)' % lst(j.get('f') or [], lambda f: '(%s, %s)' % (S(f['k']), jval(f['v'])))
+        return '(JObj %s)' % lst(j.get('f') or [], lambda f: '(%s, %s)' % (S(f['k']), jval(f['v'], sfun)))
     raise ValueError(t)
+
+
+def jser(j):
+    """canonical byte serialisation of a JSON value (same function as Check.C10Check.jser)"""
+    t = j['t']
+    if t == 'null':
+        return b'z'
+    if t == 'bool':
+        return b't' if j.get('b') else b'f'
+    if t == 'num':
+        return b'n' + str(j.get('n', 0)).encode() + b';'
+    if t == 'str':
+        b = binascii.unhexlify(j.get('s', ''))
+        return b's' + str(len(b)).encode() + b':' + b
+    if t == 'arr':
+        return b'[' + b''.join(jser(x) for x in j.get('l') or []) + b']'
+    if t == 'obj':
+        return b'{' + b''.join(jser({'t': 'str', 's': f['k']}) + jser(f['v']) for f in j.get('f') or []) + b'}'
+    raise ValueError(t)
+
+
+def sort_keys(j):
+    if j['t'] == 'obj':
+        return {'t': 'obj', 'f': sorted(({'k': f['k'], 'v': sort_keys(f['v'])} for f in j.get('f') or []),
+                                        key=lambda f: binascii.unhexlify(f['k']))}
+    if j['t'] == 'arr':
+        return {'t': 'arr', 'l': [sort_keys(x) for x in j.get('l') or []]}
+    return j
+
+
+def canon_report_json(j):
+    """the JSON encoder in use does not sort the keys of Go maps (iteration order shows): the free-form
+    map payloads are compared modulo key order, the struct fields in the order they are written"""
+    payload = {binascii.hexlify(k.encode()).decode() for k in ('aggregates', 'metrics', 'ignore_directives')}
+    if j['t'] != 'obj':
+        return j
+    return {'t': 'obj', 'f': [{'k': f['k'], 'v': sort_keys(f['v']) if f['k'] in payload else f['v']} for f in j.get('f') or []]}
 
 
 def c_location(l):
@@ -83,25 +168,25 @@ def is_err(d):
 def c_pretty(d):
     def entry(e):
         if e.get('level') is not None:
-            lv = '(LevelRow %s)' % S(e['level'])
+            lv = '(LevelRow %s)' % KC(e['level'])
         elif e.get('yellow') is not None:
             lv = '(DescColour %s)' % cbool(e['yellow'])
         else:
-            lv = '(LevelRow (unhex "3f3f"))'   # neither a Level row nor a colour: never equal to the model
+            lv = '(LevelRow %s)' % S('3f3f')   # neither a Level row nor a colour: never equal to the model
         return '(Build_pretty_entry %s %s %s %s %s %s %s)' % (
-            S(e['rule']), lv, S(e['desc']), S(e['cat']), S(e['loc']), opt(e.get('text'), S), S(e['doc']))
-    return '(Build_pretty_doc %s %s)' % (lst(d['entries'] or [], entry), S(d['footer']))
+            KC(e['rule']), lv, C(e['desc']), C(e['cat']), KC(e['loc']), opt(e.get('text'), C), C(e['doc']))
+    return shared('pretty', '(Build_pretty_doc %s %s)' % (lst(d['entries'] or [], entry), T(d['footer'])))
 
 
 def c_compact(d):
     if d.get('empty'):
         return 'CompactEmpty'
-    return '(CompactTable %s %s)' % (lst(d['rows'] or [], lambda r: '(%s, %s)' % (S(r[0]), S(r[1]))), S(d['summary']))
+    return '(CompactTable %s %s)' % (lst(d['rows'] or [], lambda r: '(%s, %s)' % (KC(r[0]), T(r[1]))), T(d['summary']))
 
 
 def c_github(d):
-    return '(Build_github_doc %s %s)' % (c_pretty(d['pretty']), lst(d['anns'] or [], lambda a: '(Build_gh_annotation %s %s %d %d %s)' % (
-        S(a['level']), S(a['file']), a['row'], a['col'], S(a['msg']))))
+    return '(Build_github_doc %s %s %s)' % (c_pretty(d['pretty']), lst(d['anns'] or [], lambda a: '(Build_gh_annotation %s %s %d %d %s)' % (
+        S(a['level']), S(a['file']), a['row'], a['col'], T(a['msg']))), lst(d.get('lines') or [], T))
 
 
 def c_sarif(d):
@@ -113,20 +198,20 @@ def c_sarif(d):
         if x['hasloc']:
             loc = '(Some (%s, %s))' % (S(x['uri']), opt(x.get('region'), region))
         return '(Build_sarif_result %s %s %s %s %s %s)' % (
-            S(x['rule']), opt(x.get('index'), N), opt(x.get('kind'), S), S(x['level']), S(x['msg']), loc)
+            S(x['rule']), opt(x.get('index'), N), opt(x.get('kind'), S), S(x['level']), T(x['msg']), loc)
     return '(Build_sarif_doc %s %s %s)' % (
-        lst(d['rules'] or [], lambda r: '(Build_sarif_rule %s %s %s %s)' % (S(r['id']), S(r['desc']), opt(r.get('help'), S), S(r['cat']))),
+        lst(d['rules'] or [], lambda r: '(Build_sarif_rule %s %s %s %s)' % (S(r['id']), T(r['desc']), opt(r.get('help'), T), T(r['cat']))),
         lst(d['artifacts'] or [], S), lst(d['results'] or [], result))
 
 
 def c_junit(d):
     def case(c):
-        return '(Build_junit_case %s %s %s %s %s %s)' % (S(c['name']), S(c['class']), S(c['msg']), S(c['type']), S(c['data']), S(c['rule']))
+        return '(Build_junit_case %s %s %s %s %s %s)' % (T(c['name']), S(c['class']), T(c['msg']), S(c['type']), T(c['data']), S(c['rule']))
     return '(Build_junit_doc %d %d %s)' % (d['tests'], d['failures'], lst(d['suites'] or [], lambda s: '(Build_junit_suite %s %d %d %s)' % (
         S(s['name']), s['tests'], s['failures'], lst(s['cases'] or [], case))))
 
 
-DOC_CONV = {'pretty': c_pretty, 'festive': c_pretty, 'compact': c_compact, 'json': lambda d: jval(d['jval']),
+DOC_CONV = {'pretty': c_pretty, 'festive': c_pretty, 'compact': c_compact, 'json': lambda d: E.name(Emitter.digest(jser(canon_report_json(d['jval'])))),
             'github': c_github, 'sarif': c_sarif, 'junit': c_junit}
 
 
@@ -137,6 +222,17 @@ def c_case(c):
         d = docs.get(f)
         parts.append('None' if is_err(d) else '(Some %s)' % DOC_CONV[f](d))
     return '(Build_case %s)' % ' '.join(parts)
+
+
+def shared(kind, text):
+    """a term used more than once (festive = pretty, github's table = pretty) becomes a definition"""
+    key = (kind, text)
+    n = E.names.get(key)
+    if n is None:
+        n = 'd%d' % len(E.names)
+        E.names[key] = n
+        E.defs.append('Definition %s := %s.' % (n, text))
+    return n
 
 
 def code_format(code):
@@ -154,11 +250,13 @@ def unhex(h):
 def eval_cases(ctx, cases, tag):
     """returns {case index: set(codes)} for model mismatches and spec failures"""
     model, spec = {}, {}
-    chunk = 60
+    chunk = 150
     for k in range(0, len(cases), chunk):
         part = cases[k:k + chunk]
-        v = ['From Coq Require Import String.', 'From Regal Require Import Check.C10Check.', 'Open Scope N_scope.',
-             'Definition cases : list case := ' + lst(part, c_case) + '.',
+        global E
+        E = Emitter()
+        body = 'Definition cases : list case := ' + lst(part, c_case) + '.'
+        v = ['From Coq Require Import Uint63.', 'From Regal Require Import Check.C10Check.', 'Open Scope N_scope.'] + E.defs + [body,
              'Definition R1 := Eval vm_compute in failing_codes model_mismatches 0 cases.',
              'Definition R2 := Eval vm_compute in failing_codes spec_failures 0 cases.',
              'Print R1. Print R2.']
@@ -225,6 +323,8 @@ def finding_kind(detail):
         return 'presented-n-times'
     if 'appears more than once' in detail:
         return 'duplicate-suite'
+    if 'rule and level are not presented' in detail:
+        return 'format-omits-rule-and-level'
     if 'missing:' in detail:
         return 'missing-violation'
     return 'other'
@@ -260,10 +360,10 @@ WORKSPACES = {
     'errors-only': ({'a.rego': TWO_ASSIGN, 'sub/b.rego': ONE_ASSIGN}, {UAO: 'error'}),
     'warnings-only': ({'a.rego': TWO_ASSIGN, 'sub/b.rego': ONE_ASSIGN}, {UAO: 'warning'}),
     'both': ({'a.rego': TWO_ASSIGN, 'r.rego': TODO}, {UAO: 'warning', TODOC: 'error'}),
-    'one-warning': ({'r.rego': TODO, 'c.rego': CLEAN}, {TODOC: 'warning'}),
+    'one-warning': ({'r.rego': TODO, 'c.rego': CLEAN}, {TODOC: 'warning'}),      # thorough tier only
     'none': ({'c.rego': CLEAN}, {UAO: 'error', TODOC: 'warning'}),
     'parse-error': ({'a.rego': TWO_ASSIGN, 'x.rego': BROKEN}, {UAO: 'error'}),
-    'specials': ({'s.rego': LONG, 'a.rego': TWO_ASSIGN}, {LINELEN: 'error', TODOC: 'warning', UAO: 'warning'}),
+    'specials': ({'s.rego': LONG, 'a.rego': TWO_ASSIGN, 'd/x,y.rego': ONE_ASSIGN}, {LINELEN: 'error', TODOC: 'warning', UAO: 'warning'}),
 }
 
 
@@ -313,10 +413,13 @@ def report_from_json(txt):
             'summary': [s.get('files_scanned', 0), s.get('files_failed', 0), s.get('rules_skipped', 0), s.get('num_violations', 0)]}
 
 
-def binary_runs(ctx, regal, h):
+def binary_runs(ctx, regal, h, only=None):
+    """only = (workspace, args): replay of one stored command line (plus the json runs that publish the report)"""
     root = os.path.join(ctx.tmp, 'ws')
     jobs = []
     for name in WORKSPACES:
+        if name == 'one-warning' and ctx.quick():
+            continue
         d = make_workspace(root, name)
         for fl in ('error', 'warning'):
             for f in FORMATS:
@@ -337,11 +440,15 @@ def binary_runs(ctx, regal, h):
     jobs.append({'ws': 'errors-only', 'dir': d, 'fail_level': 'nosuch', 'format': 'json',
                  'args': ['lint', '--format', 'json', '--fail-level', 'nosuch', '.']})
 
+    if only:
+        jobs = [j for j in jobs if j['ws'] == only[0] and (j['args'] == only[1] or (j['format'] == 'json' and not j.get('expect_failed')
+                                                                                and j['fail_level'] in ('error', 'warning')))]
+
     def one(j):
         rc, out, err = run_regal(regal, j['dir'], j['args'])
         j['status'], j['stdout'], j['stderr'] = rc, out, err
         return j
-    with concurrent.futures.ThreadPoolExecutor(max_workers=8) as ex:
+    with concurrent.futures.ThreadPoolExecutor(max_workers=12) as ex:
         jobs = list(ex.map(one, jobs))
     # the report of a workspace = what its json run published (same for both fail levels)
     reports = {}
@@ -356,24 +463,37 @@ def binary_runs(ctx, regal, h):
     for j in jobs:
         reps = reports.get(j['ws']) or [None]
         j['report'] = None if (j.get('expect_failed') or any(r is None for r in reps)) else reps[0]
-        j['reports_agree'] = all(r == reps[0] for r in reps)
+        # the order of the violations in a report is not fixed from run to run (C01's subject): runs on one
+        # workspace are required to publish the same violations as a multiset only
+        canon = [None if r is None else dict(r, violations=sorted(json.dumps(v, sort_keys=True) for v in r['violations'])) for r in reps]
+        j['reports_agree'] = all(c == canon[0] for c in canon)
     # parse every stdout of a successful run with the harness' parsers
+    manifest, idx = [], []
     for i, j in enumerate(jobs):
         j['doc'] = None
         if j['report'] is not None and j['format'] in FORMATS:
             p = os.path.join(ctx.tmp, 'out_%d.txt' % i)
             with open(p, 'wb') as f:
                 f.write(j['stdout'])
-            rc, out = vlib.run([h, 'parse', j['format'], 'true', p], timeout=120)
-            if rc != 0:
-                raise RuntimeError('c10 parse failed: ' + out[-2000:])
-            j['parsed'] = json.loads(out)
-            j['doc'] = j['parsed']['doc']
+            manifest.append({'format': j['format'], 'file': p})
+            idx.append(i)
+    mp = os.path.join(ctx.tmp, 'parse_manifest.json')
+    json.dump(manifest, open(mp, 'w'))
+    pr = subprocess.run([h, 'parsebatch', mp], stdout=subprocess.PIPE, stderr=subprocess.PIPE, timeout=600)
+    if pr.returncode != 0:
+        raise RuntimeError('c10 parsebatch failed: ' + pr.stderr.decode('utf-8', 'replace')[-2000:])
+    lines = pr.stdout.decode('utf-8').splitlines()
+    assert len(lines) == len(idx), (len(lines), len(idx))
+    for i, l in zip(idx, lines):
+        jobs[i]['parsed'] = json.loads(l)
+        jobs[i]['doc'] = jobs[i]['parsed']['doc']
     return jobs
 
 
 def eval_binary(ctx, jobs):
     """exit status vs model and vs the property's wording; stdout documents vs model documents"""
+    global E
+    E = Emitter()
     obs = []
     for j in jobs:
         res = 'LintFailed' if j['report'] is None else '(LintDone %s)' % c_report(j['report'])
@@ -385,38 +505,43 @@ def eval_binary(ctx, jobs):
             docs[j['format']] = j['doc']
             doc_cases.append({'nocolor': True, 'report': j['report'], 'docs': docs})
             doc_idx.append(i)
-    v = ['From Coq Require Import String.', 'From Regal Require Import Check.C10Check.', 'Open Scope N_scope.',
+    body_cases = 'Definition cases : list case := ' + lst(doc_cases, c_case) + '.'
+    v = ['From Coq Require Import Uint63.', 'From Regal Require Import Check.C10Check.', 'Open Scope N_scope.'] + E.defs + [
          'Definition obs : list exit_obs := ' + clist(obs) + '.',
          'Definition E1 := Eval vm_compute in failing exit_agrees 0 obs.',
          'Definition E2 := Eval vm_compute in failing exit_meets_spec 0 obs.',
-         'Definition cases : list case := ' + lst(doc_cases, c_case) + '.',
-         'Definition R1 := Eval vm_compute in failing_codes model_mismatches 0 cases.',
+         body_cases,
          'Definition R2 := Eval vm_compute in failing_codes spec_failures 0 cases.',
-         'Print E1. Print E2. Print R1. Print R2.']
+         'Print E1. Print E2. Print R2.']
     rc, out = vlib.coq_eval(ctx, 'Cases_C10_exit', '\n'.join(v))
     if rc != 0:
         raise RuntimeError('exit case evaluation failed:\n' + out[-3000:])
     e1 = vlib.parse_nat_list(out, 'E1')
     e2 = vlib.parse_nat_list(out, 'E2')
-    model, spec = {}, {}
-    for name, dst in (('R1', model), ('R2', spec)):
-        for x in vlib.parse_nat_list(out, name):
-            if code_format(x % 32) == jobs[doc_idx[x // 32]]['format']:     # only the format that run produced
-                dst.setdefault(doc_idx[x // 32], set()).add(x % 32)
-    return e1, e2, model, spec
+    # stdout documents: only the order-insensitive predicate (the run that produced a document and the json
+    # run that published the report may list the violations in different orders)
+    spec = {}
+    for x in vlib.parse_nat_list(out, 'R2'):
+        if code_format(x % 32) == jobs[doc_idx[x // 32]]['format']:     # only the format that run produced
+            spec.setdefault(doc_idx[x // 32], set()).add(x % 32)
+    return e1, e2, spec
 
 
 def job_replay(j):
     return {'workspace': j['ws'], 'files': WORKSPACES[j['ws']][0], 'config': config(WORKSPACES[j['ws']][1]),
-            'command': 'regal ' + ' '.join(j['args']), 'status': j['status'],
+            'command': 'regal ' + ' '.join(j['args']), 'args': j['args'], 'status': j['status'],
             'stdout_head': j['stdout'][:1500].decode('utf-8', 'replace'), 'stderr_head': j['stderr'][:600].decode('utf-8', 'replace')}
 
 
 # ------------------------------------------------------------------ run
 
 def run(ctx):
-    h = vlib.build_harness(ctx, 'c10')
-    regal = vlib.build_regal(ctx)
+    timing = {}
+    t0 = time.time()
+    with concurrent.futures.ThreadPoolExecutor(max_workers=2) as ex:      # the two go builds side by side
+        fh, fr = ex.submit(vlib.build_harness, ctx, 'c10'), ex.submit(vlib.build_regal, ctx)
+        h, regal = fh.result(), fr.result()
+    timing['go_builds_s'] = round(time.time() - t0, 1)
     corpus = os.path.join(vlib.VERIF, 'corpus', 'C10')
     out = os.path.join(ctx.tmp, 'c10.jsonl')
     if ctx.replay:
@@ -430,6 +555,8 @@ def run(ctx):
     else:
         run_harness(ctx, h, ['gen', out, ctx.tier, corpus])
     cases = [json.loads(l) for l in open(out)]
+    timing['harness_s'] = round(time.time() - t0 - timing['go_builds_s'], 1)
+    t1 = time.time()
 
     # ---- reporter level -----------------------------------------------------------------
     model, spec = eval_cases(ctx, cases, 'rep') if cases else ({}, {})
@@ -483,14 +610,27 @@ def run(ctx):
                              'case': {k: small[k] for k in ('gen', 'nocolor', 'report')}, 'readable': small.get('q'),
                              'document': small['docs'].get(f)}, no_input=True)
 
+    timing['reporter_eval_s'] = round(time.time() - t1, 1)
+    t2 = time.time()
     # ---- the real binary ----------------------------------------------------------------
-    jobs = [] if ctx.replay and 'case' in json.load(open(ctx.replay)) else binary_runs(ctx, regal, h)
+    rp = json.load(open(ctx.replay)) if ctx.replay else {}
+    if 'case' in rp:
+        jobs = []
+    elif 'workspace' in rp and 'args' in rp:
+        jobs = binary_runs(ctx, regal, h, only=(rp['workspace'], rp['args']))
+    else:
+        jobs = binary_runs(ctx, regal, h)
     e1 = e2 = []
-    bmodel = bspec = {}
+    bspec = {}
     if jobs:
-        e1, e2, bmodel, bspec = eval_binary(ctx, jobs)
-        for i in e2[:2]:
+        e1, e2, bspec = eval_binary(ctx, jobs)
+        e2 = [i for i in e2 if jobs[i]['fail_level'] in ('error', 'warning')]   # the property speaks about these two levels
+        seen_exit = set()
+        for i in e2:
             j = jobs[i]
+            if (j['ws'], j['fail_level']) in seen_exit or len(seen_exit) >= 2:
+                continue
+            seen_exit.add((j['ws'], j['fail_level']))
             vlib.violation(ctx, dict(job_replay(j), kind='exit-code', fail_level=j['fail_level'],
                                      what='exit status %d does not follow from the published report and --fail-level %s'
                                           % (j['status'], j['fail_level'])),
@@ -503,9 +643,12 @@ def run(ctx):
         for j in jobs:
             if j.get('expect_failed') and j['status'] != 1 and len(ctx.violations) < 4:
                 vlib.violation(ctx, dict(job_replay(j), kind='exit-code', what='a command line that cannot lint exited %d, not 1' % j['status']))
+        seen_out = set()
         for i in sorted(bspec):
             j = jobs[i]
-            detail = (j.get('parsed') or {}).get('pred', {}).get('detail', '')
+            if (j['ws'], j['format']) in seen_out:
+                continue
+            seen_out.add((j['ws'], j['format']))
             if len(ctx.violations) < 4:
                 vlib.violation(ctx, dict(job_replay(j), kind='binary-output-predicate',
                                          what='stdout of the %s run does not present every violation of the report exactly once' % j['format']),
@@ -516,12 +659,11 @@ def run(ctx):
                 vlib.violation(ctx, dict(job_replay(j), kind='binary-output-unparsable',
                                          what='stdout of the %s run cannot be parsed: %s' % (j['format'], j['doc'].get('error'))),
                                signature={'kind': 'binary-output-unparsable', 'key': '%s/%s' % (j['ws'], j['format'])})
-        if (e1 or bmodel) and not ctx.violations:
-            i = e1[0] if e1 else sorted(bmodel)[0]
-            j = jobs[i]
-            vlib.violation(ctx, dict(job_replay(j), kind='correspondence',
-                                     relation='Check.C10Check.exit_agrees (Model/Exit.v)' if e1 else 'Check.C10Check.model_mismatches on the binary stdout',
+        if e1 and not ctx.violations:
+            j = jobs[e1[0]]
+            vlib.violation(ctx, dict(job_replay(j), kind='correspondence', relation='Check.C10Check.exit_agrees (Model/Exit.v)',
                                      fail_level=j['fail_level']), no_input=True)
+    timing['binary_s'] = round(time.time() - t2, 1)
     proof_gate(ctx)
 
     # ---- evidence -----------------------------------------------------------------------
@@ -555,11 +697,14 @@ def run(ctx):
         'cases_with_payload_fields': sum(1 for c in cases if c['report'].get('metrics_j') or c['report'].get('aggregates_j')),
         'colour_mode_cases': sum(1 for c in cases if not c['nocolor']),
         'binary_runs': len(jobs), 'binary_exit_histogram': exit_hist,
-        'mismatch_model_reporters': sum(len(v) for v in model.values()), 'predicate_failures_harness': sum(len(v) for v in pred_fail.values()),
+        'mismatch_model_reporters': sum(len(v) for v in model.values()),
+        'predicate_failures_harness': sum(1 for v in pred_fail.values() for d in v.values() if finding_kind(d) != 'format-omits-rule-and-level'),
+        'known_finding_hits_compact_omits_rule_and_level': sum(1 for v in pred_fail.values() for d in v.values() if finding_kind(d) == 'format-omits-rule-and-level'),
         'predicate_failures_coq': sum(len(v) for v in spec.values()),
         'mismatch_model_exit': len(e1), 'exit_spec_failures': len(e2),
-        'mismatch_model_binary_stdout': sum(len(v) for v in bmodel.values()),
+        'binary_stdout_predicate_failures': sum(len(v) for v in bspec.values()),
         'samples': [c.get('q') for c in cases[9:12]] + [{'ws': j['ws'], 'cmd': ' '.join(j['args']), 'status': j['status']} for j in jobs[:3]],
+        'timing': timing,
         'exhaustive': False,
     })
     return vlib.finish(ctx, 'proof', cov, [
